@@ -137,7 +137,8 @@ def wire_attrs(attrs, two_byte):
                     if t in (1, 2):
                         v4 += [t, len(asns)]
                         for x in asns: v4 += be32(x)
-                out.append((192, 17, v4))
+                if v4:      # nothing but confederation segments: there is no AS4_PATH to send (an empty one is malformed, RFC 6793 6)
+                    out.append((192, 17, v4))
         elif two_byte and code == 7:
             asn = rd32(b, 0)
             out.append((192, 7, be16(23456 if asn > 65535 else asn) + b[4:8]))
@@ -149,6 +150,27 @@ def wire_attrs(attrs, two_byte):
 
 def wire_attr_len(wa):
     return sum(len(v) + (4 if (len(v) > 255 or fl & 0x10) else 3) for fl, code, v in wa)
+
+def seg_hops(segs):
+    return sum(1 if t == 1 else len(a) if t == 2 else 0 for t, a in segs)
+
+def rfc6793_reconcile(as_path, as4_path):
+    """RFC 6793 4.2.3 on segment lists: AS4_PATH is ignored when it has more hops than AS_PATH, else the
+    leading (difference) hops of AS_PATH are prepended to it"""
+    n = seg_hops(as_path) - seg_hops(as4_path)
+    if n < 0:
+        return list(as_path)
+    out = []
+    for t, a in as_path:
+        if n == 0:
+            break
+        if t == 2:
+            k = min(n, len(a)); out.append((2, a[:k])); n -= k
+        elif t == 1:
+            out.append((t, a)); n -= 1
+        else:
+            out.append((t, a))
+    return out + list(as4_path)
 
 def expected_attrs(attrs, two_byte):
     """what the receiver must hold: the same attributes, modulo the extended-length flag; an
@@ -164,9 +186,17 @@ def expected_attrs(attrs, two_byte):
             if two_byte and code == 2:
                 segs = aspath_segments(b)
                 # RFC 6793 carries no confederation segments in AS4_PATH: with both confederation
-                # segments and wide AS numbers the reconstruction is not the identity
-                if any(t in (3, 4) for t, _ in segs) and any(x > 65535 for _, a in segs for x in a):
-                    aspath_exact = False
+                # segments and wide AS numbers the receiver's reconstruction (4.2.3) is not the identity;
+                # what it must hold is the reconstruction from the two attributes the RFC has the sender write
+                if any(x > 65535 for _, a in segs for x in a):
+                    down = [(t, [23456 if x > 65535 else x for x in a]) for t, a in segs]
+                    as4 = [(t, a) for t, a in segs if t in (1, 2)]
+                    rec = rfc6793_reconcile(down, as4) if as4 else down
+                    rb = []
+                    for t, a in rec:
+                        rb += [t, len(a)]
+                        for x in a: rb += be32(x)
+                    out[-1] = (1, code, CANON[code], tuple(rb))
         else:
             if flags & 0x40:
                 out.append((2, code, flags & ~0x10 & 0xff, tuple(b)))
@@ -407,6 +437,18 @@ def judge(c, o, prof):
         gk = sorted((pid, (kind, mk, oct_)) for pid, mk, oct_ in got)
         if gk != want_keys:
             return '%s: the frames carry %d prefixes, the message %d: %s' % (prof, len(gk), len(want_keys), diff(gk, want_keys))
+    if reach:
+        # the attributes on the wire are the message's, in the RFC 6793 4.2.2 form on a two-octet-AS
+        # session, the same in every frame (read by the Spec reader, not by the peer's decoder)
+        want_wire = [(fl & ~0x10 & 0xff, code, tuple(v)) for fl, code, v in wire_attrs(m[3], sess.two_byte)]
+        for k, fr in enumerate(frames):
+            wd_, tl, nl_ = W.read_update(fr)
+            got_wire = [(fl & ~0x10 & 0xff, code, tuple(v)) for fl, code, v in tl if code not in (3, 14)]
+            if got_wire != want_wire:
+                return '%s: frame %d: attributes on the wire differ from the message: %s' % (prof, k, diff(got_wire, want_wire))
+            for fl, code, v in tl:
+                if (fl & 0x10 == 0) != (len(v) <= 255) and code not in (14,) and not any(a[1] == code and a[0] == 2 and a[2] & 0x10 for a in m[3]):
+                    return '%s: frame %d: attribute %d of %d octets has extended-length flag %d' % (prof, k, code, len(v), fl & 0x10)
     got_keys = []
     exp_attrs, aspath_exact = expected_attrs(m[3], sess.two_byte) if reach else ([], True)
     for k, d in enumerate(decoded):
